@@ -3,7 +3,7 @@
    = w workers, size bound m (0 = none), wrapper mode md, Poll re-checks the cancel channel (rc), Shutdown always
    broadcasts (bc).  [run s labels] executes an arbitrary schedule of client calls, clock ticks and worker steps. *)
 From Coq Require Import NArith List Bool Relations.
-From Verif.C18_Timed Require Import Model Heap Micro Proofs Witness Progress TaskExec Fair Window.
+From Verif.C18_Timed Require Import Model Heap Micro Proofs Witness Progress TaskExec Fair Window Wake Burst.
 Import ListNotations.
 
 (* For every configuration (also the pinned variants) and every schedule: a value is never delivered before its
@@ -132,6 +132,74 @@ Theorem C18_refuted_shutdown_sleeper :
   workers s = [WExit; WWait] /\ heap s = [] /\ shut s = true.
 Proof. exists d18d. destruct refuted_shutdown_sleeper_pinned as (A & B & C & _). auto. Qed.
 
+(* ---------- wake-ups: several waiting workers, bursts of Adds, consumers that do not come back ----------
+   "No lost wake-up" (all configurations, all schedules): Queue.Add sends one Signal per call, so in every reachable state
+   every queued element has its own awake worker in front of heapMutex ([cidle] counts WIdle), unless no worker sleeps. *)
+Theorem C18_no_lost_wakeup : forall w m md rc bc (ls : list label),
+  let s := run (init w m md rc bc) ls in
+  length (heap s) <= cidle (workers s) \/ cwait (workers s) = 0.
+Proof. exact no_lost_wakeup_run. Qed.
+
+(* hence an element in the heap is never stranded next to a sleeping worker: some worker is awake and its next step -
+   whatever the others do, in particular when the worker woken first never comes back - pops the head *)
+Theorem C18_never_stranded : forall w m md rc bc (ls : list label),
+  let s := run (init w m md rc bc) ls in
+  heap s <> [] -> In WWait (workers s) ->
+  exists i, nth_error (workers s) i = Some WIdle /\
+    forall c, exists e h', hpop (heap s) = Some (e, h') /\
+      heap (step s (LWorker i c)) = h' /\ nth_error (workers (step s (LWorker i c))) i = Some (WPopped e).
+Proof. exact never_stranded_run. Qed.
+
+(* a burst of j Adds (any times, any identifiers) while at least j workers wait wakes j distinct workers: ANY state *)
+Theorem C18_burst_wakes : forall (adds : list (N * option nat)) s,
+  shut s = false -> length adds <= cwait (workers s) ->
+  let s' := run s (map (fun a => LAdd (fst a) (snd a)) adds) in
+  cidle (workers s) + length adds <= cidle (workers s') /\ cwait (workers s') + length adds = cwait (workers s).
+Proof. exact burst_wakes. Qed.
+
+(* Refuted variant "Signal only when the heap was empty before the push" ([run_lazy], Wake.v): two waiting workers, two
+   Adds back to back, worker 0 takes element 0 and its callback does not return (or: the consumer polls once).  Element
+   1 stays in the heap for ever while worker 1 sleeps: on EVERY continuation of clock ticks and steps of worker 1 it is
+   never delivered.  On the model of the code the same schedule has worker 1 awake and delivers it ([C18_burst_nonvacuous]). *)
+Theorem C18_refuted_signal_only_when_empty :
+  exists ls, let s := run_lazy (init 2 0 IfOwn true true) ls in
+  heap s = [mkE 1 5%N None] /\ workers s = [WRun (mkE 0 5%N None); WWait] /\ shut s = false /\
+  all_delivered (log s) = false /\
+  forall ls2, Forall others_only ls2 ->
+    heap (run_lazy s ls2) = [mkE 1 5%N None] /\ delivered (log (run_lazy s ls2)) = [(0, 10%N)] /\
+    all_delivered (log (run_lazy s ls2)) = false.
+Proof. exists burst2. exact refuted_signal_only_when_empty. Qed.
+
+Example C18_burst_nonvacuous :
+  let s := run (init 2 0 IfOwn true true) burst2 in
+  workers s = [WRun (mkE 0 5%N None); WIdle] /\
+  (let s' := run s [LWorker 1 0; LWorker 1 0; LWorker 1 0; LWorker 1 0] in
+   Forall others_only [LWorker 1 0; LWorker 1 0; LWorker 1 0; LWorker 1 0] /\
+   heap s' = [] /\ delivered (log s') = [(1, 10%N); (0, 10%N)] /\ all_delivered (log s') = true).
+Proof. exact regression_burst2. Qed.
+
+(* "Eventually exactly once" when callbacks block for ever / consumers poll once (all configurations, >= 1 worker): B = the
+   elements whose callback never returns; a worker in [WRun e], e in B, is stuck and never stepped again ([fairB], Burst.v:
+   every other worker keeps being scheduled, the clock passes every bound).  On EVERY such schedule, after finitely many
+   steps every worker waits, has exited or is stuck, and if some worker waits then the heap is empty, nothing is held and
+   every accepted element has been delivered, cancelled, dropped or discarded: the later elements of a burst do not
+   depend on the first woken worker coming back.  (With B = [] this is C18_eventually_once_fair for a waiting worker.) *)
+Theorem C18_eventually_once_blocked : forall B w m md rc bc ls (f : sched), 0 < w ->
+  let s := run (init w m md rc bc) ls in
+  fairB B w s f ->
+  exists n, let s' := run s (prefix f n) in
+    (forall x, In x (workers s') -> x = WWait \/ x = WExit \/ stuck B x = true) /\
+    (In WWait (workers s') -> heap s' = [] /\ waiting s' = [] /\ all_delivered (log s') = true).
+Proof. exact fairB_delivery. Qed.
+
+(* non-vacuity of the premise: every fair schedule is fairB [] (round robin: from every state); and a schedule with a
+   really stuck worker: worker 1 runs the callback of element 0 for ever, worker 0 and the clock alternate *)
+Example C18_blocked_nonvacuous :
+  (forall w s, 0 < w -> fairB [] w s (round_robin w 0)) /\
+  (let s := run (init 2 0 IfOwn true true) burst2' in
+   workers s = [WIdle; WRun (mkE 0 5%N None)] /\ heap s = [mkE 1 5%N None] /\ fairB [0] 2 s (round_robin 1 0)).
+Proof. exact blocked_nonvacuous. Qed.
+
 (* ---------- TaskExecutor (repaired wrapper IfOwn; every worker count w, size bound m, Poll variant rc, Shutdown variant bc) ----------
    [dead s] = ghost set of the tasks that were replaced by ExecuteAt(id) or removed by a Cancel(id) = true;
    [pending_task s k e] (TaskExec.v) = task e of identifier k is queued (in the heap or held by a worker whose wrapper has
@@ -232,6 +300,11 @@ Print Assumptions C18_eventually_once_progress.
 Print Assumptions C18_eventually_once_fair.
 Print Assumptions C18_measure_decreases.
 Print Assumptions C18_refuted_shutdown_sleeper.
+Print Assumptions C18_no_lost_wakeup.
+Print Assumptions C18_never_stranded.
+Print Assumptions C18_burst_wakes.
+Print Assumptions C18_refuted_signal_only_when_empty.
+Print Assumptions C18_eventually_once_blocked.
 Print Assumptions C18_task_executor.
 Print Assumptions C18_refuted_stale_identifier.
 Print Assumptions C18_task_executor_start_local.
